@@ -18,6 +18,7 @@ PROFILES = {
     'shipped_sync': lambda rnd: sp.gen_shipped(rnd, dyn='syn'),
     'shipped_sto': lambda rnd: sp.gen_shipped(rnd, dyn='sto'),
     'queue': lambda rnd: sp.gen_script_queue(rnd),
+    'fixrec_sto': lambda rnd: sp.gen_shipped(rnd, classes=['SIR_FixedRecovery', 'SIS_FixedRecovery'], dyn='sto'),
     'rates_sto': lambda rnd: sp.gen_rates(rnd, 'sto'),
     'rates_syn': lambda rnd: sp.gen_rates(rnd, 'syn'),
     'one_step': lambda rnd: dict(sp.gen_shipped(rnd, dyn='syn', extreme=rnd.random() < 0.3), maxT=2.0),
